@@ -154,3 +154,26 @@ let () =
                                 (b01 t.M.tl_detach_parent) (pn t.M.tl_parent_sc)) in
               Printf.sprintf "ok %s %s | %s | %s" (pn rs) e (trees_string post) (trees_string ch)))
       | _ -> "err args")
+
+(* refdefs <contenthex> <nrefs> (<rawlabel> <url> <title>)* <nchars> (<charhex> <wp> <foldhex>)*
+   -> ok <rest hex> <entries of the model> <harness entries checked> <disagreeing>
+   every (raw label, url, title) the compiled parser resolves must be what the model's map holds (first
+   definition wins) for the normalized label *)
+let () =
+  register "refdefs" (fun a ->
+      match a with
+      | content :: nrefs :: rest ->
+        let (refs, rest) = take_refs (int_of_string nrefs) rest [] in
+        let (u, _) = take_oracle rest in
+        (match M.refdefs u.M.u_fold (bytes_of_hex content) with
+         | M.Panic s -> "panic " ^ ocaml_string_of_coq s
+         | M.OutOfFuel -> "fuel"
+         | M.Ok (rest, entries) ->
+           let tbl = Hashtbl.create 8 in
+           List.iter (fun (k, v) -> if not (Hashtbl.mem tbl k) then Hashtbl.add tbl k v) entries;
+           let bad = List.filter (fun (l, v) ->
+               match Hashtbl.find_opt tbl (M.sl_normalize_label u.M.u_fold l true) with
+               | Some v' -> v <> v'
+               | None -> true) refs in
+           Printf.sprintf "ok %s %d %d %d" (hex_of_bytes rest) (Hashtbl.length tbl) (List.length refs) (List.length bad))
+      | _ -> "err args")
